@@ -17,6 +17,7 @@ the stream satisfies `p` (`evalG p v = ok true`: returns `True`, does not raise)
 The pinned (unrepaired) helpers are characterised by the `*_pinned_*` witnesses at the end.
 -/
 import PyPred.Lemmas.GenClauses
+import PyPred.Lemmas.GenEmbed
 
 set_option linter.unusedSimpArgs false
 set_option linter.unusedVariables false
@@ -438,6 +439,28 @@ theorem C09_pinned_ints_round_empty (lower upper : Int) :
     (min 1 upper < max (-1) lower ∧ min 10 upper < max (-10) lower ∧ min 100 upper < max (-100) lower)
       ↔ (upper < lower ∨ 100 < lower ∨ upper < -100) := by
   omega
+
+
+/-! ### Judged by the reference evaluator of C08
+
+The property text says "each yielded value, judged by the reference evaluator of C08".  `evalG` is
+that evaluator: on C08's universe `PyVal` (embedded by `embed`, Lemmas/GenEmbed.lean) and on every
+predicate built from the atom kinds both models know (eq, ne, ge, gt, le, lt, in, not_in, subset,
+real subset, none / not-none / truthy / falsy / empty, the type tests, has_key) with `&`, `|`,
+`all_p`, `any_p`, `set_of`, it returns exactly what C07/C08's `evalPy` returns (`evalG_embed`).
+Values outside the image of `embed` (datetimes, UUIDs, floats off the ½-grid) have no `PyVal`
+counterpart; for them `evalG` extends the same definitions. -/
+
+/-- **C09 in C08's terms.**  Whenever a value of the stream `generate_true(p)` is (the embedding of)
+a value `x` of C08's universe, C08's evaluator says that `x` satisfies `p`. -/
+theorem C09_judged_by_C08_evaluator (p : P) (g : GP) (hg : trP p = some g) (hfree : pObjFree p = true)
+    (hok : okT g = true) (raws : List Int) (fuel want : Nat) (x : PyVal) (hx : objFree x = true)
+    (hmem : embed x ∈ (takeN fuel want (genTrue g) ⟨raws, []⟩).values) : evalPy p x = .ok true := by
+  rw [← evalG_embed p g hg hfree x hx]
+  exact C09_generate_true_sound g hok raws fuel want _ hmem
+
+example : trP (.and (.atom (.inst [.int])) (.atom (.ge (.int 3)))) = some (.and false true (.inst [.int]) (.ge (.int 3))) := rfl
+example : embed (.flt 7) = .flt (7 * half) := rfl
 
 end Gen
 end PyPred
